@@ -1,7 +1,9 @@
 package props
 
 import (
+	"crypto/tls"
 	"fmt"
+	"net"
 	"strconv"
 	"strings"
 	"testing"
@@ -14,6 +16,7 @@ import (
 	"verif/internal/connsim"
 	"verif/internal/doubles"
 	"verif/internal/resp"
+	"verif/internal/sched"
 )
 
 // ---- C20: tracing spans are balanced for every request outcome ----
@@ -285,18 +288,169 @@ func evalC20Stop(c c20Stop) *Failure {
 	return c20Analyze(what, log, tr, conn.Out())
 }
 
+// c20Forest: the part of the oracle that holds for any number of connections: every span is finished exactly once,
+// starts after its parent has started and finishes before its parent finishes.
+func c20Forest(what string, tr *doubles.Tracer) *Failure {
+	spans := tr.Snapshot()
+	byID := map[int]doubles.Span{}
+	for _, s := range spans {
+		byID[s.ID] = s
+	}
+	for _, s := range spans {
+		if len(s.Finishes) == 0 {
+			return failf("c20|unfinished|"+spanKind(s), "%s: span %q (#%d) was started and never finished", what, s.Name, s.ID)
+		}
+		if len(s.Finishes) > 1 {
+			return failf("c20|finished-twice|"+spanKind(s), "%s: span %q (#%d) was finished %d times", what, s.Name, s.ID, len(s.Finishes))
+		}
+		if s.Parent != 0 {
+			p, ok := byID[s.Parent]
+			if !ok {
+				return failf("c20|orphan", "%s: span %q has unknown parent", what, s.Name)
+			}
+			if s.StartSeq < p.StartSeq || (len(p.Finishes) > 0 && (s.StartSeq > p.Finishes[0] || s.Finishes[0] > p.Finishes[0])) {
+				return failf("c20|nesting|"+spanKind(s), "%s: span %q [%d,%d] is not nested in its parent %q [%d,%v]", what, s.Name, s.StartSeq, s.Finishes[0], p.Name, p.StartSeq, p.Finishes)
+			}
+		}
+	}
+	return nil
+}
+
+// c20Contend: two connections; A is inside a command (parked in its handler call) while B sends its request, which
+// has to wait for A's command to end. Both then finish their pipelines and close.
+type c20Contend struct {
+	A []string   `json:"a"`
+	B [][]string `json:"b"`
+}
+
+func evalC20Contend(c c20Contend) *Failure {
+	srv, rec := newRecServer()
+	log := &connsim.Log{}
+	tr := doubles.NewTracer(log)
+	srv.SetTracer(tr)
+	parked, release := make(chan struct{}), make(chan struct{})
+	armed := true
+	rec.Gate = func(cl *doubles.Call) {
+		if armed && cl.ConnID == 0 {
+			armed = false
+			close(parked)
+			<-release
+		}
+	}
+	what := fmt.Sprintf("connection A inside %v while connection B sends %v", c.A, c.B)
+	m, err := connsim.NewMulti(srv, 2, serveTimeout())
+	if err != nil {
+		return failf("harness|multi", "%v", err)
+	}
+	m.Conns[0].Feed(resp.Cmd(c.A...).Bytes())
+	select {
+	case <-parked:
+	case <-time.After(serveTimeout()):
+		close(release)
+		return failf("harness|gate", "%v made no handler call", c.A)
+	}
+	for _, r := range c.B {
+		m.Conns[1].Feed(resp.Cmd(r...).Bytes())
+	}
+	time.Sleep(2 * time.Millisecond) // let B reach the point where it waits for A (a scheduling aid, never a verdict)
+	close(release)
+	for i := 0; i < 2; i++ {
+		if idle, to := m.Conns[i].WaitIdle(nil, serveTimeout()); !idle || to {
+			return stallFailure("c20", what)
+		}
+	}
+	if err := m.CloseAll(); err != nil {
+		return stallFailure("c20", what)
+	}
+	for i := range m.Conns {
+		if o := m.Outcome(i); o != nil && o.Panic != nil {
+			return failf("c20|panic|"+panicKey(*o), "%s: panic: %v", what, o.Panic)
+		}
+	}
+	return c20Forest(what, tr)
+}
+
+// c20TCP: a client on a real socket is answered, then the server is stopped while it is idle.
+type c20TCP struct {
+	Reqs int  `json:"reqs"`
+	TLS  bool `json:"tls"`
+}
+
+func evalC20TCP(c c20TCP) *Failure {
+	pk := sharedPKI()
+	srv, _ := newRecServer()
+	tr := doubles.NewTracer(&connsim.Log{})
+	srv.SetTracer(tr)
+	srv.ServerCert, srv.ServerKey, srv.CACerts = pk.Server.CertPEM, pk.Server.KeyPEM, pk.Root.CertPEM
+	port, tlsPort, err := startOnFreePorts(srv, true)
+	if err != nil {
+		return failf("harness|start", "%v", err)
+	}
+	what := fmt.Sprintf("a client on a real socket (tls=%v) is answered %d times, then Stop while it is idle", c.TLS, c.Reqs)
+	var conn net.Conn
+	if c.TLS {
+		conn, err = tls.DialWithDialer(&net.Dialer{Timeout: 10 * time.Second}, "tcp", fmt.Sprintf("127.0.0.1:%d", tlsPort), pk.ClientConfig(pk.Client("verif-client", pk.Root, false)))
+	} else {
+		conn, err = net.DialTimeout("tcp", fmt.Sprintf("127.0.0.1:%d", port), 10*time.Second)
+	}
+	if err != nil {
+		srv.Stop()
+		return failf("harness|dial", "%v", err)
+	}
+	defer conn.Close()
+	for i := 0; i < c.Reqs; i++ {
+		if _, err := roundTrip(conn, resp.Cmd("PING").Bytes(), 10*time.Second); err != nil {
+			srv.Stop()
+			return failf("harness|ping", "%v", err)
+		}
+	}
+	deadline := time.Now().Add(5 * time.Second)
+	for len(srv.Conns()) < 1 && time.Now().Before(deadline) {
+		time.Sleep(time.Millisecond)
+	}
+	stopped := make(chan struct{})
+	go func() { srv.Stop(); close(stopped) }()
+	select {
+	case <-stopped:
+	case <-time.After(20 * time.Second):
+		return failf("c20|stop-hangs", "%s: Stop did not return", what)
+	}
+	if gs := sched.SettleNoServerGoroutines(10 * time.Second); len(gs) > 0 {
+		return failf("harness|goroutines", "%s: server goroutines remain", what)
+	}
+	return c20Forest(what, tr)
+}
+
 func init() {
+	register("c20.contend", evalC20Contend)
+	register("c20.tcp", evalC20TCP)
 	register("c20.pipe", evalC20)
 	register("c20.stop", evalC20Stop)
 }
 
 func TestC20(t *testing.T) {
 	h := newHarness(t, "C20", "the pipelines of C03/C10 (every command with valid, invalid, missing and surplus arguments, unknown commands, QUIT, composed commands, scripted handler errors), optionally interspersed with requests that carry no command (status line, integer, bulk, error, empty array, array with a null/integer/nested first element) "+
-		"x end of stream at a random byte offset (request boundary or inside a request) x reply writes failing after N bytes (the peer is gone) x optionally a required password (unauthorized requests, AUTH with right/wrong password); plus connections ended by the SERVER (Stop while the connection waits for its next request or is parked inside a handler operation of a command), and the tracer replaced at run time while the connection is idle; a tracer double records span start/finish in the same "+
+		"x end of stream at a random byte offset (request boundary or inside a request) x reply writes failing after N bytes (the peer is gone) x optionally a required password (unauthorized requests, AUTH with right/wrong password); plus connections ended by the SERVER (Stop while the connection waits for its next request or is parked inside a handler operation of a command), and the tracer replaced at run time while the connection is idle; two connections of which one has to wait for the other's command; clients on real sockets (plain, TLS) stopped while idle; a tracer double records span start/finish in the same "+
 		"sequence-numbered log as handler calls and connection writes. Oracle: spans form a forest, each finished exactly once, children nested in parents, roots and siblings do not overlap, every write/handler call inside exactly one root, at most one reply per root. "+
 		"Non-trivial: the pipeline has a request whose outcome is not plain success (argument error, unknown, unauthorized, QUIT, cut, handler error, failed reply write) or a composed command. Distinct = distinct (stream, cut, password, script).")
 	defer h.Finish()
 	h.Probes()
+
+	if h.Shard == 0 {
+		for _, c := range []c20TCP{{Reqs: 1}, {Reqs: 0}, {Reqs: 2, TLS: true}, {Reqs: 0, TLS: true}} {
+			h.Col.Case(true, []byte(fmt.Sprint("tcp", c)), "real-socket-stop")
+			h.Report("c20.tcp", c, evalC20TCP(c))
+		}
+	}
+	h.Rapid("contention", h.N(60, 2000), func(rt *rapid.T) {
+		pool := [][]string{{"PING"}, {"GET", "k"}, {"SET", "k", "v"}, {"INCR", "n"}, {"NOSUCH"}, {"STRLEN", "k"}, {"HLEN", "h"}}
+		c := c20Contend{A: rapid.SampledFrom([][]string{{"GET", "k"}, {"INCR", "n"}, {"MSET", "a", "1", "b", "2"}, {"STRLEN", "k"}, {"HLEN", "h"}}).Draw(rt, "a")}
+		for i, n := 0, rapid.IntRange(1, 3).Draw(rt, "nb"); i < n; i++ {
+			c.B = append(c.B, rapid.SampledFrom(pool).Draw(rt, "b"))
+		}
+		h.Col.Case(true, []byte(fmt.Sprint("contend", c)), "lock-contention")
+		h.Fail(rt, "c20.contend", c, evalC20Contend(c))
+	})
 
 	h.Rapid("server-stop", h.N(300, 5000), func(rt *rapid.T) {
 		c := c20Stop{}
